@@ -24,6 +24,8 @@ COMPS = [
     ("GramCD", dict(), None, "L1"), ("FISTA", dict(), "Quadratic", "L1"),
     ("GroupBCD", dict(p0=1), "QuadraticGroup", "WeightedGroupL2"), ("GroupBCD", dict(ws_strategy="fixpoint"), "QuadraticGroup", "WeightedGroupL2"),
     ("GroupProxNewton", dict(), "LogisticGroup", "WeightedGroupL2"), ("MultiTaskBCD", dict(p0=1), "QuadraticMultiTask", "L2_1"),
+    ("AndersonCD", dict(), "Quadratic", "WeightedL1+"), ("AndersonCD", dict(p0=1), "Quadratic", "WeightedL1+"), ("ProxNewton", dict(), "Logistic", "WeightedL1+"),
+    ("GroupBCD", dict(ws_strategy="fixpoint"), "QuadraticGroup", "WeightedL1GroupL2"), ("GroupBCD", dict(p0=1), "QuadraticGroup", "WeightedGroupL2+"),
 ]
 
 
@@ -57,11 +59,15 @@ def base_problem(i, X, y, fi, tier):
     a = 0.15 * (a0 if np.isfinite(a0) and a0 > 1e-8 else 1.0)
     if pk == "L1":
         ps = dict(name="L1", alpha=a, positive=False)
-    elif pk == "WeightedL1":
-        ps = dict(name="WeightedL1", alpha=a, weights=[1.0, 2.0, 0.5, 3.0, 0.25][:p], positive=False)
-    elif pk == "WeightedGroupL2":
+    elif pk in ("WeightedL1", "WeightedL1+"):
+        ps = dict(name="WeightedL1", alpha=a, weights=[1.0, 2.0, 0.5, 3.0, 0.25][:p], positive=pk.endswith("+"))
+    elif pk in ("WeightedGroupL2", "WeightedGroupL2+"):
         G = len(dspec["grp_ptr"]) - 1
-        ps = dict(name="WeightedGroupL2", alpha=a, weights=[1.0, 2.0, 0.5][:G], grp_ptr=dspec["grp_ptr"], grp_indices=dspec["grp_indices"], positive=False)
+        ps = dict(name="WeightedGroupL2", alpha=a, weights=[1.0, 2.0, 0.5][:G], grp_ptr=dspec["grp_ptr"], grp_indices=dspec["grp_indices"], positive=pk.endswith("+"))
+    elif pk == "WeightedL1GroupL2":
+        G = len(dspec["grp_ptr"]) - 1
+        ps = dict(name="WeightedL1GroupL2", alpha=a, weights_groups=[1.0, 2.0, 0.5][:G], weights_features=[1.0, 2.0, 0.5, 3.0, 0.25][:p],
+                  grp_ptr=dspec["grp_ptr"], grp_indices=dspec["grp_indices"])
     else:
         ps = dict(name="L2_1", alpha=a)
     return dict(solver=dict(name=sname, kw=kw), datafit=dspec, penalty=ps, X=X.tolist(), y=y.tolist())
@@ -104,6 +110,8 @@ def transforms(comp, tier):
         p2 = dict(ps)
         if "weights" in ps and ps["name"] != "WeightedGroupL2":
             p2["weights"] = list(np.asarray(ps["weights"])[pi])
+        if "weights_features" in ps:
+            p2["weights_features"] = list(np.asarray(ps["weights_features"])[pi])
         d2 = ds
         if "grp_ptr" in ps:
             newg = [[int(inv[j]) for j in g] for g in groups_of(ps)]
@@ -115,7 +123,8 @@ def transforms(comp, tier):
     if "grp_ptr" in ps:
         gs = groups_of(ps)
         for go in list(itertools.permutations(range(len(gs))))[1:]:
-            p2 = set_groups(dict(ps, weights=list(np.asarray(ps["weights"])[list(go)])), [gs[g] for g in go])
+            wkey = "weights" if "weights" in ps else "weights_groups"
+            p2 = set_groups(dict(ps, **{wkey: list(np.asarray(ps[wkey])[list(go)])}), [gs[g] for g in go])
             d2 = set_groups(ds, [gs[g] for g in go])
             yield f"group_order{list(go)}", dict(comp, penalty=p2, datafit=d2), (lambda w: np.asarray(w))
         # order inside a group
@@ -137,7 +146,7 @@ def transforms(comp, tier):
     if quad:
         for cfac in (0.25, 3.0, 1024.0):
             yield f"scale_y_alpha_x{cfac}", dict(comp, y=(cfac * y).tolist(), penalty=dict(ps, alpha=cfac * ps["alpha"])), (lambda w, cfac=cfac: cfac * np.asarray(w))
-    if ps["name"] == "WeightedL1":
+    if ps["name"] == "WeightedL1" and not ps.get("positive") or ps["name"] == "WeightedL1":
         for j in (0, p - 1):
             for cfac in (0.25, 3.0, 1024.0):
                 X2 = X.copy()
@@ -184,6 +193,12 @@ def exec_pair(params):
     prob2 = C.problem_of(comp2)
     F2, FT = RC.objective(prob2, w2), RC.objective(prob2, Tw)
     fista = comp["solver"]["name"] == "FISTA"
+    if prob2["penalty"]["name"] == "WeightedL1GroupL2":
+        # no reference subdifferential for the sparse-group penalty: both points are optimal for the same convex problem, so
+        # their objectives agree up to the tolerance of the fits (1e-10) - 1e-7 relative is three orders above it
+        if abs(F2 - FT) > 1e-7 * (1 + abs(FT)):
+            out.append(("solution_does_not_transform", dict(objective_difference=F2 - FT), "<= 1e-7 relative"))
+        return out, w2
     for a, b, Fa, Fb, tag in ((w2, Tw, F2, FT, "transformed fit vs transform of fit"), (Tw, w2, FT, F2, "transform of fit vs transformed fit")):
         nu = RC.violation(prob2, a)[0]
         bound = max(nu, 1e-10) * (10.0 if fista else 1.0) * float(np.sum(np.abs(np.asarray(a) - np.asarray(b)))) + 1e-9 * (1 + abs(Fb))
@@ -233,7 +248,7 @@ def replay(params):
 
 
 def describe(tier, agg):
-    rule = ("11 convex compositions (AndersonCD, ProxNewton, GramCD, FISTA, GroupBCD, GroupProxNewton, MultiTaskBCD; weighted penalties, "
+    rule = ("16 convex compositions (AndersonCD, ProxNewton, GramCD, FISTA, GroupBCD, GroupProxNewton, MultiTaskBCD; weighted penalties, "
             "non-contiguous groups) x {dense, CSC} x designs x intercept; for each, the whole symmetry group: all feature permutations "
             "(weights and group membership carried along), all group orders and reversed within-group order, all task orders, all / 24 "
             "sample orders, replication x2 x3, (y, alpha) scalings and (feature, weight) scalings by 1/4, 3, 2^10; metamorphic oracle "
